@@ -19,13 +19,13 @@ type seg struct {
 
 // half is one direction of a TCP connection.
 type half struct {
-	p    *pair
-	d    int // direction index: 0 dialer->acceptor
-	q    []seg
-	qb   int      // bytes in q
-	rbuf [][]byte // delivered, unread
-	rb   int
-	fin  bool // writer closed; FIN follows q
+	p            *pair
+	d            int // direction index: 0 dialer->acceptor
+	q            []seg
+	qb           int      // bytes in q
+	rbuf         [][]byte // delivered, unread
+	rb           int
+	fin          bool // writer closed; FIN follows q
 	finDue       time.Duration
 	finDelivered bool
 	lastDue      time.Duration
